@@ -86,26 +86,73 @@ Theorem C38_mergeb_sound : forall pat xs m nm, mergeb pat xs m nm = true ->
 Proof. exact mergeb_sound. Qed.
 Print Assumptions C38_mergeb_sound.
 
-(* ... and the model satisfies it for every type, builtin, parameter list and
-   input list (no bound on lengths). *)
-Theorem C38_model_meets_spec : forall dt o xs,
-  spec_ok {| c_dt := dt; c_op := o; c_in := xs; c_obs := run dt o xs |} = true.
+(* counts are preserved: match and !match together keep every element, msort
+   and mtac keep the length, prepend / append add exactly the parameters *)
+Theorem C38_match_count : forall ps xs, join_sp ps <> [] ->
+  (length (fst (apply_op (OpMatch ps) xs)) + length (snd (apply_op (OpMatch ps) xs)) = length xs)%nat.
+Proof. exact match_count. Qed.
+Print Assumptions C38_match_count.
+
+Theorem C38_msort_mtac_count : forall xs,
+  length (fst (apply_op OpMsort xs)) = length xs /\ length (fst (apply_op OpMtac xs)) = length xs.
+Proof. intro xs. split; [apply msort_count|apply mtac_count]. Qed.
+Print Assumptions C38_msort_mtac_count.
+
+Theorem C38_prepend_append_count : forall ps xs,
+  length (fst (apply_op (OpPrepend ps) xs)) = (length ps + length xs)%nat /\
+  length (fst (apply_op (OpAppend ps) xs)) = (length xs + length ps)%nat.
+Proof. exact pend_count. Qed.
+Print Assumptions C38_prepend_append_count.
+
+(* ... and the model satisfies it for every type, strict-arrays setting, builtin,
+   parameter list and input list (no bound on lengths) — under the exact guard
+   `clean`: the model reports no error.  For str lists the guard always holds;
+   for json it fails exactly when a result list is empty (known finding 1). *)
+Theorem C38_model_meets_spec : forall dt strict o xs, clean dt strict o xs = true ->
+  spec_ok {| c_dt := dt; c_strict := strict; c_op := o; c_in := xs; c_obs := run dt strict o xs |} = true.
 Proof. exact model_meets_spec. Qed.
 Print Assumptions C38_model_meets_spec.
+
+Theorem C38_guard_str : forall strict o xs, clean DStr strict o xs = true.
+Proof. exact clean_str. Qed.
+Print Assumptions C38_guard_str.
+
+Theorem C38_guard_json_nonempty : forall strict o xs,
+  is_nil (fst (apply_op o xs)) = false ->
+  (match o with OpMatch _ => is_nil (snd (apply_op o xs)) = false | _ => True end) ->
+  clean DJson strict o xs = true.
+Proof. exact clean_json_nonempty. Qed.
+Print Assumptions C38_guard_json_nonempty.
+
+(* F38-1 (known finding 1): with the json type an empty result list is the
+   error "no data returned" instead of `[]` — `%[a,b] -> match x`. *)
+Theorem C38_empty_result_refuted :
+  clean DJson true (OpMatch [[120%N]]) [[97%N]; [98%N]] = false /\
+  o_out (run DJson true (OpMatch [[120%N]]) [[97%N]; [98%N]]) = [] /\
+  o_err (run DJson true (OpMatch [[120%N]]) [[97%N]; [98%N]]) = true.
+Proof. exact empty_result_refuted. Qed.
+Print Assumptions C38_empty_result_refuted.
+
+(* every case outside the guard violates the property in exactly that way *)
+Theorem C38_unclean_is_finding : forall dt strict o xs, clean dt strict o xs = false ->
+  spec_ok {| c_dt := dt; c_strict := strict; c_op := o; c_in := xs; c_obs := run dt strict o xs |} = false /\
+  classify {| c_dt := dt; c_strict := strict; c_op := o; c_in := xs; c_obs := run dt strict o xs |} = 1%N.
+Proof. exact unclean_is_finding. Qed.
+Print Assumptions C38_unclean_is_finding.
 
 (* Non-vacuity: spec_ok rejects wrong observations — a dropped duplicate, an
    unsorted result, a multi-byte character cut in half (the pre-fix behaviour of
    `left 1` on "é", which JSON turned into U+FFFD), and a match that loses an element. *)
 Local Open Scope N_scope.
 Example C38_nonvacuous :
-  spec_ok {| c_dt := DJson; c_op := OpMsort; c_in := [[98]; [97]; [97]];
+  spec_ok {| c_dt := DJson; c_strict := true; c_op := OpMsort; c_in := [[98]; [97]; [97]];
              c_obs := {| o_err := false; o_out := [[97]; [98]]; o_err2 := false; o_out2 := [] |} |} = false /\
-  spec_ok {| c_dt := DJson; c_op := OpMsort; c_in := [[98]; [97]];
+  spec_ok {| c_dt := DJson; c_strict := true; c_op := OpMsort; c_in := [[98]; [97]];
              c_obs := {| o_err := false; o_out := [[98]; [97]]; o_err2 := false; o_out2 := [] |} |} = false /\
-  spec_ok {| c_dt := DJson; c_op := OpLeft 1; c_in := [[195; 169]];
+  spec_ok {| c_dt := DJson; c_strict := true; c_op := OpLeft 1; c_in := [[195; 169]];
              c_obs := {| o_err := false; o_out := [[239; 191; 189]]; o_err2 := false; o_out2 := [] |} |} = false /\
-  spec_ok {| c_dt := DStr; c_op := OpMatch [[97]]; c_in := [[97]; [98]; [97; 98]];
+  spec_ok {| c_dt := DStr; c_strict := true; c_op := OpMatch [[97]]; c_in := [[97]; [98]; [97; 98]];
              c_obs := {| o_err := false; o_out := [[97]]; o_err2 := false; o_out2 := [[98]] |} |} = false /\
-  spec_ok {| c_dt := DStr; c_op := OpMatch [[97]]; c_in := [[97]; [98]; [97; 98]];
-             c_obs := run DStr (OpMatch [[97]]) [[97]; [98]; [97; 98]] |} = true.
+  spec_ok {| c_dt := DStr; c_strict := true; c_op := OpMatch [[97]]; c_in := [[97]; [98]; [97; 98]];
+             c_obs := run DStr true (OpMatch [[97]]) [[97]; [98]; [97; 98]] |} = true.
 Proof. vm_compute. repeat split. Qed.
